@@ -247,6 +247,14 @@ def run_readme_order(prop: str, seed: int) -> dict:
         plan["readme_order"] = True
         res["plan"] = plan
         c = L.run_real(P.control_plan(plan["world"], plan["Tmax"]), os.path.join(root, "c"), x64_first=False)
+        c_end = c.hist["lifetimes"][0]["calls"][0].get("it1") if c.hist["lifetimes"][0]["calls"] else None
+        stops = [o["it"] for lt in plan["lifetimes"][:-1] for o in lt["ops"] if o["op"] == "solve_to"]
+        if c_end is None or any(k >= c_end for k in stops):
+            # the interruption points were planned against the 64-bit control; in the float32
+            # world of this boot order the uninterrupted run stops earlier - an interruption at or
+            # after its end has nothing to resume (not comparable, not a violation)
+            res["verdict"] = "skipped"
+            return res
         b = L.run_real(plan, os.path.join(root, "r"), x64_first=False)
         res["lifetimes"] = len(plan["lifetimes"]) + 1
         res["dtype"] = c.hist["lifetimes"][0]["boot"].get("values_dtype")
